@@ -668,7 +668,7 @@ fn gen(rng: &mut Rng, tier: u32) -> String {
     // stream that mixes their lifecycles
     let directed = n >= 4 && rng.chance(8);
     let necu = if directed { 2 } else { 1 + rng.below(2) as u8 };
-    let distinct = directed || rng.chance(3);
+    let distinct = (directed && rng.chance(2)) || rng.chance(3);
     // ECUs that booted at very different times: equal reception times, lifecycle starts (and timestamps) far apart
     let ts_off: Vec<u32> = (0..necu).map(|e| if e > 0 && (directed || rng.chance(2)) { [300_000u32, 6_000_000][rng.below(2) as usize] } else { 0 }).collect();
     for _ in 0..n {
@@ -693,7 +693,7 @@ fn gen(rng: &mut Rng, tier: u32) -> String {
     let wild = wild && !directed;
     let open_cmd = if wild {
         *rng.pick(&["open1p", "open1p", "open1p", "opennc", "openxc"])
-    } else if strict && (directed || rng.chance(2)) {
+    } else if (strict || (monotone && rng.chance(2))) && (directed || rng.chance(2)) {
         "opensort"
     } else {
         "open"
@@ -760,12 +760,14 @@ fn gen(rng: &mut Rng, tier: u32) -> String {
                 }
                 format!("cw {} {} {}", k, start, stop)
             }
-            51..=64 => format!("search {} {} {} {}", k, gen_fs(rng), rng.below(n as u64 + 2), rng.below(5)),
+            51..=64 => format!("search {} {} {} {}", k, gen_fs(rng), rng.below(n as u64 + 2), if rng.chance(12) { [1u64 << 40, 1 << 53, u32::MAX as u64][rng.below(3) as usize] } else { rng.below(5) }),
             65..=72 => format!("bsi {} {}", k, rng.below(n as u64 + 3)),
             73..=78 => {
                 if monotone && n > 0 {
                     let i = rng.below(n as u64) as usize;
                     let t = (starts[i] + msgs[i].ts as u64 * 100) / 1000 + rng.below(2);
+                    // sometimes a time far beyond every message (also beyond what fits into microseconds)
+                    let t = if rng.chance(10) { [u64::MAX / 1000 + 1, u64::MAX / 1000, u64::MAX][rng.below(3) as usize] } else { t };
                     format!("bst {} {}", k, t)
                 } else {
                     format!("bsbad {}", k)
